@@ -131,7 +131,7 @@ let run (line : string) : unit =
       with_pos cmd fen (fun p ->
           let ms = legal_moves p in
           let forced = forced_mate_in (nat_of_int n) p in
-          let keep = List.filter (fun m -> keeps_mate (nat_of_int (n - 1)) p m) ms in
+          let keep = List.filter (fun m -> keeps_mate (nat_of_int n) p m) ms in
           Printf.printf "specmate n=%d forced=%d dead=%d checkmate=%d keep=%s\n" n (b01 forced)
             (b01 (ms = [])) (b01 (checkmate p)) (texts keep))
   | "specperft" ->
